@@ -14,6 +14,7 @@ DECIDED += "; R3 re-derived: every matching trigger is reported whatever the rea
 DECIDED += '; R6 the corruption hook installed for a host step is only read by fire_corruption (every corrupted read of the step reaches the barriers)'
 DECIDED += '; R7 the corruption hook is not called in place from code that holds the Fs mutex (recorded finding D62)'
 DECIDED += "; R4 also: Drop for Barrier unregisters on every path (also while unwinding); a nested fs scope restores the outer scope's corruption hook (shared C01-R8)"
+DECIDED += "; R1 also: BarrierRepo::barrier answers None only where its scan of the registry is exhausted; R6 also: turmoil_fs::enter installs the scope's own hook on every path"
 ASSUMPTIONS = ["tokio unbounded mpsc never rejects a send while the receiver lives"]
 
 BR = "turmoil::barriers::BarrierRepo::"
